@@ -24,7 +24,7 @@ KEEP_REAL = {"get_annotations"}     # inlined (concrete annotation sets)
 
 
 def vc_len(x):
-    if isinstance(x, (AMat, symfns.PermProxy)):
+    if isinstance(x, (AMat, symfns.PermProxy)) or type(x).__name__ in ("IArr", "IndexFn"):
         return x.shape[0]
     return len(x)
 
